@@ -380,6 +380,16 @@ def trace_origin(
                 ):
                     return _TraceResult(core.get_code(node, source), node.lineno, node)
 
+                # A submodule of a package is bound in the package when it has been imported,
+                # by anyone, and is then provided by a starred import of the package.
+                if origin.name == "__init__.py" and (
+                    (origin.parent / f"{name}.py").is_file()
+                    or (origin.parent / name / "__init__.py").is_file()
+                ):
+                    all_filter = _infer_all(core.parse(module_source))
+                    if all_filter is None or name in all_filter:
+                        return _TraceResult(core.get_code(node, source), node.lineno, node)
+
         if isinstance(node, (ast.FunctionDef, ast.AsyncFunctionDef, ast.ClassDef)):
             if node.name == name:
                 return _TraceResult(core.get_code(node, source), node.lineno, node)
